@@ -81,6 +81,11 @@ def validate_sparse(seed=0, rounds=60):
         _same('tocoo.tocsr', r.tocoo().tocsr(), m.tocoo().tocsr())
         _same('tocoo.tocsc', r.tocoo().tocsc(), m.tocoo().tocsc())
         _same('astype', r.astype(float), m.astype(float))
+        # formats that are only ever converted: what their tocsr() yields
+        _same('lil.tocsr', sp.lil_matrix(r.copy()).tocsr(), M.lil_matrix(m).tocsr())       # (some scipy conversions sort their source in place)
+        _same('dok.tocsr', sp.dok_matrix(r.copy()).tocsr(), M.dok_matrix(m).tocsr())
+        for bs in (() if dup else ((1, 1), (nr, nc), (1, nc), (nr, 1))):
+            _same(f'bsr{bs}.tocsr', sp.bsr_matrix(r.copy(), blocksize=bs).tocsr(), M.bsr_matrix(m, blocksize=bs).tocsr())
         _same('copy', r.copy(), m.copy())
         _same('T', r.T, m.T)
         _same('transpose(copy)', r.transpose(copy=True), m.transpose(copy=True))
@@ -159,6 +164,9 @@ def validate_sparse(seed=0, rounds=60):
             md[a, b] += v
         _same('csr(dok.T)', sp.csr_matrix(rd.T), M.csr_matrix(md.T))
         _same('csc(dok)', sp.csc_matrix(rd), M.csc_matrix(md))
+        _same('dok.tocsr (insertion order)', rd.tocsr(), md.tocsr())
+        _same('dok.tocsc', rd.tocsc(), md.tocsc())
+        _same('lil(dok)', sp.lil_matrix(rd).tocsr(), M.lil_matrix(md).tocsr())
         n += 1
     return n
 
